@@ -100,6 +100,9 @@ def declare_fields(cls, default="Real", **fields):
 
 
 def field_type(cls, attr):
+    if cls.startswith("List[") and attr.startswith("["):
+        inner = cls[5:-1]
+        return ("Obj", inner) if inner not in ("Opaque", "Real", "Int") else inner
     d = FIELD_TYPES.get(cls)
     if d is None:
         return "Real"
